@@ -168,7 +168,7 @@ def render_layer(quick_s=15, thorough_s=300):
         except Exception:
             return {"what": "C15 rendering layer", "error": (err or out)[-400:], "violations": []}
         r = {"what": "C15 rendering layer: random abstract machines (2-4 states in shuffled declaration order, 1-3 events, guards, transitions shared "
-                     "by two events, an optional any-group) written as class-body source in 15 declaration styles, executed on the real library "
+                     "by two events, an optional any-group) written as class-body source in 16 declaration styles, executed on the real library "
                      "and compared on states, events, allowed events per step, outcomes and convention-callback traces over random event "
                      "sequences and guard verdicts (bounded, not a proof)",
              "bound": f"time budget {limit}s (at least 150 machines), seed {seed}; 5 sequences of <= 6 events per machine; styles: " + ", ".join(res.get("styles", [])),
@@ -287,6 +287,25 @@ def probes(pid, names):
     return run
 
 
+def fixed_witnesses(pid, names):
+    """Witnesses of REPAIRED defects (known_findings.jsonl `fixed:` lines) are replayed on every run: a repaired defect that
+    comes back is a violation like any other (a fixed entry suppresses nothing)."""
+    import os
+
+    def run(tier, seed, run_native):
+        r = {"what": f"{pid}: witnesses of repaired defects must keep passing (bounded, not a proof)", "bound": ", ".join(names),
+             "evaluations": len(names), "distinct": len(names), "violations": []}
+        for nm in names:
+            rc, out, err = run_native([os.path.join("witness", nm + ".py")], timeout=180)
+            if rc == 1:
+                r["violations"].append({"name": f"bounded:{pid}:repaired-defect-is-back:{nm}", "replay": os.path.join("/verif/witness", nm + ".py"),
+                                        "difference": out.strip()[-300:]})
+            elif rc != 0:
+                r["violations"].append({"name": f"witness-crashed:{nm}", "replay": None, "difference": (err or out)[-300:]})
+        return r
+    return run
+
+
 def _scans_engine():
     from . import scans
     return scans.scan_state_field_writers() + scans.scan_queue_mutators() + scans.scan_lock_operations()
@@ -304,10 +323,10 @@ PROPERTIES = {
         "asyncio.gather / as_completed / run_async_from_sync: assumed contracts (pyvc/models.py); the order of effects inside one callback group is left unconstrained, as documented",
         "relational reading: sync and async functions are verified against the SAME contract classes"],
         "bounded": [scenario_layer("C05"), probes("C05", ["C05_sync_driver_keeps_one_loop"])], "search": scenario_search("C05")},
-    "C10": {"scans": [_scans_engine], "bounded": [scenario_layer("C10"), probes("C10", ["C10_every_transition_stores_the_target_value"])],
+    "C10": {"scans": [_scans_engine], "bounded": [fixed_witnesses("C10", ['C10_falsy_values']), scenario_layer("C10"), probes("C10", ["C10_every_transition_stores_the_target_value"])],
             "search": scenario_search("C10")},
-    "C11": {"bounded": [scenario_layer("C11"), probes("C11", ["C11_mixin_resumes_stored_state"])], "search": scenario_search("C11")},
-    "C13": {"bounded": [api_layer("C13"), render_layer(quick_s=8, thorough_s=60)], "assumptions": [
+    "C11": {"bounded": [fixed_witnesses("C11", ['C11_nonrtc_resume']), scenario_layer("C11"), probes("C11", ["C11_mixin_resumes_stored_state"])], "search": scenario_search("C11")},
+    "C13": {"bounded": [fixed_witnesses("C13", ['C13_send_attribute']), api_layer("C13"), render_layer(quick_s=8, thorough_s=60)], "assumptions": [
         "TransitionList.unique_events, StateMachine.events / allowed_events and bind_events_to are NOT under contract (the "
         "ordered-dedup invariant did not discharge in the time budget): covered by the bounded API layer only; send, "
         "Event.__call__ and Event.__get__ are proved"]},
@@ -327,17 +346,17 @@ PROPERTIES = {
             "scans": [lambda: __import__("checker.scans", fromlist=["x"]).scan_ownership()],
             "assumptions": ["ownership table (checker/scans.py) is part of the contract: every heap write site in the package is classified"]},
     "C07": {"lemmas": [lambda: __import__("contracts.signature", fromlist=["x"]).scan_signature_cache_key()],
-            "bounded": [sig_layer("C07")],
+            "bounded": [fixed_witnesses("C07", ['C07_kwonly_after_surplus_positional']), sig_layer("C07")],
             "assumptions": ["inspect.Signature validity (kind order, distinct names) as a precondition of bind_expected",
                             "inspect.BoundArguments.args/.kwargs (how a binding is turned into a call) are CPython's (modelled as two attributes of the binding object)",
                             "attr_method / event_method adapters (dispatcher.py) and Event.__call__'s stripping of reserved names are not under contract: "
                             "covered by the bounded end-to-end layer only"]},
-    "C08": {"bounded": [expr_layer(), render_layer(quick_s=8, thorough_s=60)],  # cond/unless must survive every declaration style (from_.any() copies)
+    "C08": {"bounded": [probes("C08", ["C08_decorated_guards_keep_their_polarity"]), fixed_witnesses("C08", ['C08_unsupported_structure_exception']), expr_layer(), render_layer(quick_s=8, thorough_s=60)],  # cond/unless must survive every declaration style (from_.any() copies)
             "assumptions": [
                 "operands of guard expressions are read without side effects (OperandCall oracle)",
                 "build_expression / parse_boolean_expr (AST walk) and Listeners.build are not under contract yet: the AST->closure mapping is covered by the bounded lexical layer only; the five combinator closures, the guard conjunction (all/async_all, expected_value) and CallbacksRegistry.check are proved",
                 "operator.eq/ne/gt/ge/lt/le are Python's comparisons (CMP)"]},
-    "C17": {"bounded": [clone_layer(), witnesses("C17", ["C17_equal_listeners_collapse"])], "assumptions": [
+    "C17": {"bounded": [fixed_witnesses("C17", ['C17_clone_engine_and_activation', 'C17_ctor_listener_order']), clone_layer(), witnesses("C17", ["C17_equal_listeners_collapse"])], "assumptions": [
         "copy.deepcopy / pickle protocol: the dict returned by __getstate__ is deep-copied and __setstate__ runs on a blank instance (so original and clone share no mutable state)",
         "_register_callbacks / add_listener / _get_engine / async_or_sync / engine.start enter through abstract contracts read off their bodies (what they do to has_async_callbacks, the listeners and the pending activation)",
         "behavioural equality after the round trip follows from equal views (same class, stored value, options, listeners, engine kind, pending activation) by the engine contracts of C01-C04"]},
